@@ -1061,6 +1061,21 @@ def rule_T6(ctx, rid='T6'):
                 ctx.ob(rid, 'add_bound:caller(%s)' % f.qualname, False, f.where(c),
                        'add_bound is called from %s, outside the phase guard of run()'
                        % f.qualname)
+    # run() applies its discard_exploration argument only when exploration ends; a later
+    # run() slice must not overwrite a switch made through the setter
+    n_set = 0
+    for x in cfg.nodes:
+        if x.kind == 'stmt' and isinstance(x.ast, ast.Assign) and any(
+                dotted(t) in ('self.discard_exploration', 'self._discard_exploration')
+                for t in x.ast.targets):
+            n_set += 1
+            ok = _under_not_explored(cfg, x.id)
+            ctx.ob(rid, 'Sampler.run:discard-flag-set-only-at-transition', ok, run.where(x.ast),
+                   'run() sets the discard flag inside the `not explored` branch (the '
+                   'transition)' if ok else
+                   'run() sets the discard flag outside the transition: a later run() call '
+                   'overrides a switch made through the setter (its argument defaults to False)')
+    ctx.require(n_set >= 1, 'Sampler.run no longer applies its discard_exploration argument')
     # destructive updates of the per-shell records in run
     tr = SamplerTracker(run, G_SHELL.members + ['shell_n_sample_exp', 'shell_end_exp'])
     dels = []
